@@ -14,3 +14,26 @@ globals().update(make(
     'the consumer was blocked; distinct = SHA-1 of the canonical spec JSON.',
     lambda mon, case: any(b['emitted'] >= 2 for b in mon.bat.values()) and mon.c['handovers_after_block'] > 0,
     None, quick=(400, 4), thorough=(2000, 16)))
+
+
+# "a batch's routing history updates are applied to all parts it contains" also holds for batches that travel inside other
+# batches: a second phase runs the nested-batch lines of the value profile with the routing oracle alone (census and
+# buffer oracles count only the top level of a nested batch, see W-list).
+_e3_phases = phases
+_e3_run = run_case
+
+
+def phases(tier):
+    from engines import e3gen
+    from vlib.runner import Search
+    n, sh = (150, 2) if tier == 'quick' else (1500, 8)
+    return _e3_phases(tier) + [Search('nested-batches-routing', lambda: e3gen.specs([('values', 1)]), n, shards=sh)]
+
+
+def run_case(case, ctx):
+    if case.get('profile') == 'values':
+        from engines import linefuzz
+        mon = linefuzz.run_spec(case, ('route',))
+        nested = any(isinstance(d.get('batch'), dict) for d in case['devs'])
+        return linefuzz.common_result(mon, nested and mon.c['events'] > 20, ['nested-batches'] if nested else [])
+    return _e3_run(case, ctx)
